@@ -2,7 +2,8 @@
 
 (a) fact-level mutation analysis — always applicable, nothing is compiled: single MIR-level edits are applied to
     the loaded facts of the crates the property depends on (an authorisation call becomes a no-op, a branch
-    condition is inverted, a storage write / publish / cross-contract call becomes a no-op), the property's rules are
+    condition is inverted, a storage write / publish / cross-contract call becomes a no-op, two same-typed call arguments are swapped, a
+    strict comparison becomes non-strict (and vice versa), a compared constant is incremented, an overflow check is dropped), the property's rules are
     re-run on the edited program and it is recorded whether a new violation appears ("killed").  This shows
     which rule instances are live and that the rules are not vacuous.
 (b) source mutants (selftest/mutants.py) — each applied to a private scratch copy of /repo (never to /repo), the
@@ -62,6 +63,20 @@ def candidates(crate):
                     out.append(('drop-verify', key, bi))
             elif t['t'] == 'switch' and t.get('dty') == 'bool' and len(t['arms']) == 1:
                 out.append(('negate-branch', key, bi))
+            elif t['t'] == 'assert':
+                out.append(('drop-overflow-check', key, bi))
+            if t['t'] == 'call' and t['to'] >= 0 and len(t['args']) >= 2:
+                tys = t.get('argtys', [])
+                for i in range(len(t['args'])):
+                    for j in range(i + 1, len(t['args'])):
+                        if i < len(tys) and j < len(tys) and tys[i] == tys[j] and tys[i] not in ('&soroban_sdk::Env', 'soroban_sdk::Env') \
+                                and t['args'][i]['k'] in ('copy', 'move') and t['args'][j]['k'] in ('copy', 'move'):
+                            out.append(('swap-args:%d:%d' % (i, j), key, bi))
+            for si, st in enumerate(b['st']):
+                if st['s'] == 'assign' and st['rv']['r'] == 'bin' and st['rv']['op'] in ('Gt', 'Ge', 'Lt', 'Le'):
+                    out.append(('flip-strictness:%d' % si, key, bi))
+                    if st['rv']['b']['k'] == 'const' and re.match(r'^(?:const )?-?\d+_[iu]', st['rv']['b']['v'].strip()):
+                        out.append(('const-plus-one:%d' % si, key, bi))
     return out
 
 
@@ -70,9 +85,24 @@ def apply(crate, m):
     inst = crate.inst[key]
     blk = inst['blocks'][bi]
     saved = copy.deepcopy(blk['term'])
+    saved['__st'] = copy.deepcopy(blk['st'])
     t = blk['term']
-    if kind in ('drop-auth', 'drop-effect', 'drop-verify'):
+    if kind in ('drop-auth', 'drop-effect', 'drop-verify', 'drop-overflow-check'):
         blk['term'] = {'t': 'goto', 'to': t['to']}
+    elif kind.startswith('swap-args:'):
+        _, i, j = kind.split(':')
+        i, j = int(i), int(j)
+        t2 = copy.deepcopy(t)
+        t2['args'][i], t2['args'][j] = t2['args'][j], t2['args'][i]
+        blk['term'] = t2
+    elif kind.startswith('flip-strictness:'):
+        si = int(kind.split(':')[1])
+        blk['st'][si]['rv']['op'] = {'Gt': 'Ge', 'Ge': 'Gt', 'Lt': 'Le', 'Le': 'Lt'}[blk['st'][si]['rv']['op']]
+    elif kind.startswith('const-plus-one:'):
+        si = int(kind.split(':')[1])
+        v = blk['st'][si]['rv']['b']['v']
+        mm = re.match(r'^((?:const )?)(-?\d+)(_.*)$', v.strip())
+        blk['st'][si]['rv']['b']['v'] = '%s%d%s' % (mm.group(1), int(mm.group(2)) + 1, mm.group(3))
     elif kind == 'negate-branch':
         a, tgt = t['arms'][0]
         t2 = dict(t)
@@ -86,6 +116,9 @@ def apply(crate, m):
 def restore(crate, m, saved):
     kind, key, bi = m
     inst = crate.inst[key]
+    st = saved.pop('__st', None)
+    if st is not None:
+        inst['blocks'][bi]['st'] = st
     inst['blocks'][bi]['term'] = saved
     prog.prep_body(inst)
 
@@ -122,14 +155,14 @@ def fact_mutation(P, rep, mod, budget_s=240):
             finally:
                 restore(c, m, saved)
             killed = bool(v - base)
-            k = stats.setdefault(m[0], [0, 0])
+            k = stats.setdefault(m[0].split(':')[0], [0, 0])
             k[0] += 1
             k[1] += int(killed)
             total += 1
             if not killed:
                 inst = c.inst[m[1]]
                 at = saved.get('at') or inst.get('at') or ''
-                survivors.append('%s %s %s' % (m[0], inst['def'].split('::', 1)[-1][-60:], at.split('/')[-1]))
+                survivors.append('%s %s %s' % (m[0].split(':')[0], inst['def'].split('::', 1)[-1][-60:], at.split('/')[-1]))
     P._graphs = {}
     return dict(total=total, per_operator={k: {'applied': a, 'killed': b} for k, (a, b) in stats.items()},
                 survivors=survivors[:80], wall_s=round(time.time() - t0, 1),
